@@ -19,8 +19,12 @@ def signature(clauses, e):
     q = e["q"]
     specs = q["range"]["specs"]
     detail = e.get("_detail") or []
-    return "%s:status=%s:%s:specs=%s:parts=%s" % (",".join(clauses), e["r"].get("status"), e["r"].get("outcome"),
-                                                 "+".join(spec_class(s) for s in specs), "+".join(detail))
+    classes = [spec_class(s) for s in specs]
+    if len(classes) > 8:        # long lists: class x count
+        classes = ["%sx%d" % (c, classes.count(c)) for c in sorted(set(classes))]
+    if len(detail) > 8:
+        detail = ["%sx%d" % (c, detail.count(c)) for c in sorted(set(detail))]
+    return "%s:status=%s:%s:specs=%s:parts=%s" % (",".join(clauses), e["r"].get("status"), e["r"].get("outcome"), "+".join(classes), "+".join(detail))
 
 
 def run(tier, replay):
